@@ -22,28 +22,35 @@ abbrev Str := List Nat
 
 def isCont (b : Nat) : Bool := decide (0x80 ≤ b) && decide (b ≤ 0xBF)
 
+/-- lowest / highest second byte accepted after the lead byte `s0` (`acceptRanges`) -/
+def lo2 (s0 : Nat) : Nat := if s0 = 0xE0 then 0xA0 else if s0 = 0xF0 then 0x90 else 0x80
+def hi2 (s0 : Nat) : Nat := if s0 = 0xED then 0x9F else if s0 = 0xF4 then 0x8F else 0xBF
+
+def dec2 (s0 : Nat) : Str → Nat × Nat
+  | s1 :: _ => if isCont s1 then ((s0 % 32) * 64 + s1 % 64, 2) else (0xFFFD, 1)
+  | [] => (0xFFFD, 1)
+
+def dec3 (s0 : Nat) : Str → Nat × Nat
+  | s1 :: s2 :: _ =>
+    if decide (lo2 s0 ≤ s1) && decide (s1 ≤ hi2 s0) && isCont s2
+    then ((s0 % 16) * 4096 + (s1 % 64) * 64 + s2 % 64, 3) else (0xFFFD, 1)
+  | _ => (0xFFFD, 1)
+
+def dec4 (s0 : Nat) : Str → Nat × Nat
+  | s1 :: s2 :: s3 :: _ =>
+    if decide (lo2 s0 ≤ s1) && decide (s1 ≤ hi2 s0) && isCont s2 && isCont s3
+    then ((s0 % 8) * 262144 + (s1 % 64) * 4096 + (s2 % 64) * 64 + s3 % 64, 4) else (0xFFFD, 1)
+  | _ => (0xFFFD, 1)
+
 /-- `(rune, width)`; `(0xFFFD, 1)` for an invalid or short sequence, `(0xFFFD, 0)` for the empty string -/
 def decodeRune : Str → Nat × Nat
   | [] => (0xFFFD, 0)
   | s0 :: rest =>
     if s0 < 0x80 then (s0, 1)
     else if s0 < 0xC2 then (0xFFFD, 1)
-    else if s0 < 0xE0 then
-      match rest with
-      | s1 :: _ => if isCont s1 then ((s0 % 32) * 64 + s1 % 64, 2) else (0xFFFD, 1)
-      | [] => (0xFFFD, 1)
-    else if s0 < 0xF0 then
-      match rest with
-      | s1 :: s2 :: _ =>
-        if decide ((if s0 = 0xE0 then 0xA0 else 0x80) ≤ s1) && decide (s1 ≤ (if s0 = 0xED then 0x9F else 0xBF)) && isCont s2
-        then ((s0 % 16) * 4096 + (s1 % 64) * 64 + s2 % 64, 3) else (0xFFFD, 1)
-      | _ => (0xFFFD, 1)
-    else if s0 < 0xF5 then
-      match rest with
-      | s1 :: s2 :: s3 :: _ =>
-        if decide ((if s0 = 0xF0 then 0x90 else 0x80) ≤ s1) && decide (s1 ≤ (if s0 = 0xF4 then 0x8F else 0xBF)) && isCont s2 && isCont s3
-        then ((s0 % 8) * 262144 + (s1 % 64) * 4096 + (s2 % 64) * 64 + s3 % 64, 4) else (0xFFFD, 1)
-      | _ => (0xFFFD, 1)
+    else if s0 < 0xE0 then dec2 s0 rest
+    else if s0 < 0xF0 then dec3 s0 rest
+    else if s0 < 0xF5 then dec4 s0 rest
     else (0xFFFD, 1)
 
 /-- the common loop of `htmlReplacer` and `replace`: decode a rune, emit its replacement or its bytes, advance by
@@ -135,19 +142,20 @@ def isUnreservedMark (c : Nat) : Bool := [45, 46, 95, 126].contains c
 /-- `%%%02x` -/
 def pctEncode (c : Nat) : Str := [37, hexDigit ((c / 16) % 16), hexDigit (c % 16)]
 
+/-- `processURLOnto`: is the byte `c` (followed by `rest`) copied unchanged? -/
+def urlKeep (norm : Bool) (c : Nat) (rest : Str) : Bool :=
+  if isReserved c then norm
+  else if isUnreservedMark c then true
+  else if c = 37 then
+    norm && (match rest with
+             | h1 :: h2 :: _ => isHex h1 && isHex h2
+             | _ => false)
+  else isAlnum c
+
 /-- `processURLOnto` -/
 def urlProcess (norm : Bool) : Str → Str
   | [] => []
-  | c :: rest =>
-    let keep : Bool :=
-      if isReserved c then norm
-      else if isUnreservedMark c then true
-      else if c = 37 then
-        norm && (match rest with
-                 | h1 :: h2 :: _ => isHex h1 && isHex h2
-                 | _ => false)
-      else isAlnum c
-    (if keep then [c] else pctEncode c) ++ urlProcess norm rest
+  | c :: rest => (if urlKeep norm c rest then [c] else pctEncode c) ++ urlProcess norm rest
 
 def urlEscape (s : Str) : Str := urlProcess false s
 def urlNormalize (s : Str) : Str := urlProcess true s
@@ -186,14 +194,17 @@ def urlQueryChain (s : Str) : Str := htmlEscape (urlEscape s)
 /-- `\u00XX` -/
 def jsU00 (r : Nat) : Str := [92, 117, 48, 48, hexDigit ((r / 16) % 16), hexDigit (r % 16)]
 
+/-- `lowUnicodeReplacementTable[r]` for `r < 0x20` -/
+def jsLow (r : Nat) : Str :=
+  if r = 9 then [92, 116]            -- \t
+  else if r = 10 then [92, 110]      -- \n
+  else if r = 12 then [92, 102]      -- \f
+  else if r = 13 then [92, 114]      -- \r
+  else jsU00 r
+
 /-- the per-rune decision of `replace(s, jsStrReplacementTable)`: `lowUnicodeReplacementTable` first -/
 def jsStrRepl (r : Nat) : Option Str :=
-  if r < 0x20 then
-    (if r = 9 then some [92, 116]            -- \t
-     else if r = 10 then some [92, 110]      -- \n
-     else if r = 12 then some [92, 102]      -- \f
-     else if r = 13 then some [92, 114]      -- \r
-     else some (jsU00 r))
+  if r < 0x20 then some (jsLow r)
   else if r = 34 ∨ r = 96 ∨ r = 38 ∨ r = 39 ∨ r = 43 ∨ r = 60 ∨ r = 62 then some (jsU00 r)
   else if r = 47 then some [92, 47]          -- \/
   else if r = 92 then some [92, 92]          -- \\
